@@ -16,6 +16,8 @@ v ::= n | t | f | i8:<int> | i16:<int> | i32:<int> | i64:<int> | f32:<hex8 bits>
 * `variant.enc <v>` → `ok <metadata hex> <value hex>` (MIRROR encoder, dictionary `metaOf v`)
 * `variant.dec <metadata hex> <value hex>` → `ok <v>` / `err <class>` (SPEC decoders)
 * `variant.canon <v>` → `ok <v with object fields sorted by key>`
+* `variant.shredcols <schema> <v>` → `ok <row metadata hex> <col>;<col>;…`: the non-null values every leaf
+  column below the variant group receives (`x<hex>` bytes, `i32:`/`i64:`/`f32:`/`f64:`/`b0|b1`), `-` = none
 * `variant.shred <schema> <v>` → `ok <shredded text> <reconstructed v> <non-null count per leaf column>`
   (logical shredding model) -/
 namespace Driver.Ops.C19
@@ -231,6 +233,18 @@ def showSlotFields : List (Key × Slot) → List String
   | (k, v) :: fs => (hexE k ++ "=" ++ showSlot v) :: showSlotFields fs
 end
 
+def showCol : ColVal → String
+  | .bool b => if b then "b1" else "b0"
+  | .i32 x => s!"i32:{x.toInt}"
+  | .i64 x => s!"i64:{x.toInt}"
+  | .f32 x => "f32:" ++ hexBE 4 x.toNat
+  | .f64 x => "f64:" ++ hexBE 8 x.toNat
+  | .bytes b => "x" ++ hexE b
+
+def showLeaf : LeafVal → String
+  | .enc b => "x" ++ hexE b
+  | .col c => showCol c
+
 def handle (toks : List String) : Option String :=
   match toks with
   | ["variant.enc", txt] => some <|
@@ -261,6 +275,14 @@ def handle (toks : List String) : Option String :=
       match unshred s sl with
       | some r => s!"ok {showSlot sl} {showV r} {cnt}"
       | none => s!"ok {showSlot sl} invalid {cnt}"
+    | _, _ => "bad-op"
+  | ["variant.shredcols", sch, txt] => some <|
+    match parseSchema? sch, parseValue? txt with
+    | some s, some v =>
+      let d := metaOf v
+      let cols := leafValues d s (shred s v)
+      let colTxt := ";".intercalate (cols.map fun c => Driver.showList showLeaf c)
+      s!"ok {toHex (encodeMeta d)} {colTxt}"
     | _, _ => "bad-op"
   | _ => none
 
